@@ -319,7 +319,8 @@ func (p *Parser) parseInjectCall(pkg *packages.Package, kessokuPackageScope *typ
 			ASTTypeExpr: fun.Index,
 		}
 		// Collect dependencies from return type expression
-		fun.Index, _ = p.collectDependencies(fun.Index, pkg.TypesInfo, imports, varPool)
+		fun.Index, build.Return.ReferencedImports = p.collectDependencies(fun.Index, pkg.TypesInfo, imports, varPool)
+		build.Return.ASTTypeExpr = fun.Index
 	case *ast.IndexListExpr:
 		if len(call.Fun.(*ast.IndexListExpr).Indices) == 0 {
 			return nil, fmt.Errorf("kessoku.Inject requires at least 1 type argument")
@@ -330,7 +331,8 @@ func (p *Parser) parseInjectCall(pkg *packages.Package, kessokuPackageScope *typ
 			ASTTypeExpr: fun.Indices[0],
 		}
 		// Collect dependencies from return type expression
-		fun.Indices[0], _ = p.collectDependencies(fun.Indices[0], pkg.TypesInfo, imports, varPool)
+		fun.Indices[0], build.Return.ReferencedImports = p.collectDependencies(fun.Indices[0], pkg.TypesInfo, imports, varPool)
+		build.Return.ASTTypeExpr = fun.Indices[0]
 	default:
 		return nil, fmt.Errorf("kessoku.Inject requires at least 1 type argument")
 	}
